@@ -47,7 +47,7 @@ Bounds boundsFor(const vr::Args &args)
   Bounds b;
   if (args.thorough())
   {
-    b.maxLen = 6;
+    b.maxLen = 5;
     b.cLen = 5;
     b.dLen = 3;
   }
